@@ -563,6 +563,8 @@ class System:
             if timearg not in self.arguments and timesteparg not in self.arguments or maxretry <= 0:
                 raise
             log.error(f'error: {e}; retrying with timestep {timestep/2}')
+            if timearg:
+                arguments[timearg] = time # undo the advance of the failed step; the two half steps advance the time themselves
             halfstep_args = dict(solveargs, timestep=timestep/2, timearg=timearg, timesteparg=timesteparg, suffix=suffix, maxretry=maxretry-1)
             with log.context('retry 1/2'):
                 halfway_arguments = self.step(arguments=arguments, **halfstep_args)
